@@ -1,0 +1,43 @@
+//go:build verif
+// +build verif
+
+package bfe_server
+
+// Hooks for the verification harness of property C41 (build tag verif, add-only): which TLS rule and which
+// certificate the production lookups (TLSServerRuleMap, MultiCertMap) choose for a connection's VIP and SNI.
+
+import (
+	"crypto/x509"
+	"net"
+)
+
+import (
+	"github.com/bfenetworks/bfe/bfe_config/bfe_tls_conf/tls_rule_conf"
+	"github.com/bfenetworks/bfe/bfe_tls"
+)
+
+// VerifC41RuleLookup loads conf into a fresh TLSServerRuleMap (Update) and returns the bfe_tls.Rule that
+// Get yields for a connection with the given VIP (nil = none) and SNI.
+func VerifC41RuleLookup(conf tls_rule_conf.BfeTlsRuleConf, caMap map[string]*x509.CertPool, vip net.IP, sni string) *bfe_tls.Rule {
+	m := NewTLSServerRuleMap(new(ProxyState))
+	m.Update(conf, caMap, map[string]*bfe_tls.CRLPool{})
+	return m.Get(bfe_tls.VerifC41ConnFor(vip, sni))
+}
+
+// VerifC41CertLookup loads the certificates and rules into a fresh MultiCertMap (Update) and returns the name
+// (key of certs) of the certificate that Get yields, "" if Update failed or the result is not one of certs.
+func VerifC41CertLookup(certs map[string]*bfe_tls.Certificate, ruleMap tls_rule_conf.TlsRuleMap, vip net.IP, sni string) string {
+	m := NewMultiCertMap(new(ProxyState))
+	if err := m.Update(certs, ruleMap); err != nil {
+		return ""
+	}
+	got := m.Get(bfe_tls.VerifC41ConnFor(vip, sni))
+	// several names may share one certificate object: report the smallest name
+	best := ""
+	for name, c := range certs {
+		if c == got && (best == "" || name < best) {
+			best = name
+		}
+	}
+	return best
+}
